@@ -151,6 +151,8 @@ func patterns(maxSeg int) []string {
 	}
 	rec("", maxSeg)
 	out = append(out, "//a", "/a/", "/a//b", "/:x/", "//", "/a/*/b")
+	// registrations that are rejected after part of the pattern has been walked
+	out = append(out, "/a/:x/:x", "/:x/b/:x", "/a/:", "/:")
 	return out
 }
 
@@ -233,19 +235,23 @@ func (b *bench) observe(i int, s *httpd.Store) {
 	o.any = s.RouteParamAny()
 }
 
-// build registers the routes of table (indexes into specs) in the given order; ok=false if a registration panics.
-func (b *bench) build(table []int) (mux *httpd.Mux, ok bool) {
+// build registers the routes of table (indexes into specs) in the given order. A registration
+// that panics is recovered, as a caller may do, and the following ones are still made: the
+// routes the Mux then has are the successfully registered ones, returned in order.
+func (b *bench) build(table []int) (mux *httpd.Mux, registered []int) {
 	mux = httpd.NewMux()
 	mux.HandleNoRoute(b.noRoute)
-	defer func() {
-		if recover() != nil {
-			ok = false
-		}
-	}()
 	for _, i := range table {
-		mux.Handle(b.specs[i].pattern, b.specs[i].method, b.handlers[i])
+		func() {
+			defer func() {
+				if recover() == nil {
+					registered = append(registered, i)
+				}
+			}()
+			mux.Handle(b.specs[i].pattern, b.specs[i].method, b.handlers[i])
+		}()
 	}
-	return mux, true
+	return mux, registered
 }
 
 // nullWriter is a ResponseWriter that accepts everything.
@@ -290,39 +296,37 @@ func permutations(t []int) [][]int {
 }
 
 func (b *bench) checkTable(table []int, paths []string, st *stats) {
-	mux, ok := b.build(table)
-	desc := func() string {
-		var d []string
-		for _, i := range table {
-			d = append(d, b.specs[i].method+" "+b.specs[i].pattern)
-		}
-		return "{" + strings.Join(d, ", ") + "}"
-	}
-	if !ok {
-		// a table that is rejected must be rejected in every order only if the cause is order-independent
-		// (duplicate route); we just count it
-		st.Rejected++
-		return
-	}
-	st.Tables++
-	// every registration order of the same set is judged against the documented walk: the
-	// statement speaks of the set of registered routes, whatever the order they came in
+	// every registration order of the same calls is judged against the documented walk over
+	// the routes that were registered successfully in that order
 	for pi, p := range permutations(table) {
-		if pi > 0 {
-			m2, ok2 := b.build(p)
-			st.OrderChecks++
-			if !ok2 {
-				continue // registration itself is not this property's subject
-			}
-			mux, table = m2, p
+		mux, registered := b.build(p)
+		isReg := map[int]bool{}
+		for _, i := range registered {
+			isReg[i] = true
 		}
-		if !b.judgeTable(mux, table, desc(), paths, st, pi == 0) {
+		var d []string
+		for _, i := range p {
+			e := b.specs[i].method + " " + b.specs[i].pattern
+			if !isReg[i] {
+				e += " (rejected)"
+			}
+			d = append(d, e)
+		}
+		if pi == 0 {
+			st.Tables++
+			if len(registered) < len(p) {
+				st.Rejected++
+			}
+		} else {
+			st.OrderChecks++
+		}
+		if !b.judgeTable(mux, p, registered, "{"+strings.Join(d, ", ")+"}", paths, st, pi == 0) {
 			return
 		}
 	}
 }
 
-func (b *bench) judgeTable(mux *httpd.Mux, table []int, desc string, paths []string, st *stats, first bool) bool {
+func (b *bench) judgeTable(mux *httpd.Mux, calls, table []int, desc string, paths []string, st *stats, first bool) bool {
 	root := newRefNode()
 	var refs []*refRoute
 	for _, i := range table {
@@ -338,7 +342,7 @@ func (b *bench) judgeTable(mux *httpd.Mux, table []int, desc string, paths []str
 				st.Viols = append(st.Viols, vcommon.Violation{Scenario: "dispatch", Fingerprint: fmt.Sprintf("%s|%q|%s", desc, path, method),
 					Message:  fmt.Sprintf("C04: table %s, request %s %q: %s", desc, method, path, msg),
 					Witness:  map[string]any{"table": desc, "path": path, "method": method},
-					ReplayGo: replayGo(b, table, path, method)})
+					ReplayGo: replayGo(b, calls, path, method)})
 			}
 			if o.paniced != nil {
 				fail(fmt.Sprintf("ServeHTTP panicked: %v", o.paniced))
@@ -414,7 +418,7 @@ func replayGo(b *bench, table []int, path, method string) string {
 	var sb strings.Builder
 	sb.WriteString("package httpd_test\n\nimport (\n\t\"net/http\"\n\t\"net/http/httptest\"\n\t\"net/url\"\n\t\"testing\"\n\n\t\"github.com/whoisnian/glb/httpd\"\n)\n\nfunc TestReplayC04(t *testing.T) {\n\tmux := httpd.NewMux()\n\tvar ran []string\n\tmux.HandleNoRoute(func(s *httpd.Store) { ran = append(ran, \"no-route\") })\n")
 	for _, i := range table {
-		fmt.Fprintf(&sb, "\tmux.Handle(%q, %q, func(s *httpd.Store) { ran = append(ran, %q) })\n", b.specs[i].pattern, b.specs[i].method, b.specs[i].method+" "+b.specs[i].pattern)
+		fmt.Fprintf(&sb, "\tfunc() {\n\t\tdefer func() { recover() }() // a rejected registration panics\n\t\tmux.Handle(%q, %q, func(s *httpd.Store) { ran = append(ran, %q) })\n\t}()\n", b.specs[i].pattern, b.specs[i].method, b.specs[i].method+" "+b.specs[i].pattern)
 	}
 	fmt.Fprintf(&sb, "\tmux.ServeHTTP(httptest.NewRecorder(), &http.Request{Method: %q, URL: &url.URL{Path: %q}, Header: http.Header{}})\n\tt.Logf(\"handlers run: %%v\", ran)\n}\n", method, path)
 	return sb.String()
